@@ -395,6 +395,29 @@ func errDisciplineSeen(c *Check) {
 			}
 		}
 	}
+	// … and at every function of the packages the property is anchored in (properties.jsonl, anchors.files) plus the
+	// modules those mechanisms are built from: the inventory is quiet on the reference tree by construction, so the
+	// wider net costs nothing there, and a skipped step in a table, a normaliser or a report generator is as fatal
+	// for the property as one in its central function
+	{
+		have := map[*types.Func]bool{}
+		for _, fi := range keptFis {
+			have[fi.Obj] = true
+		}
+		for _, rel := range propertyPackages[c.ID] {
+			pk := p.Pkg(rel)
+			if pk == nil {
+				continue
+			}
+			p.AllFuncs([]*packagesPkg{pk}, func(fi *FuncInfo) {
+				if have[fi.Obj] || fi.Decl.Body == nil || strings.HasSuffix(p.Fset.Position(fi.Decl.Pos()).Filename, "_test.go") {
+					return
+				}
+				have[fi.Obj] = true
+				keptFis = append(keptFis, fi)
+			})
+		}
+	}
 	sort.Slice(keptFis, func(i, j int) bool { return keptFis[i].Name() < keptFis[j].Name() })
 	defer keptEffectsSeen(c, keptFis)
 	// functions that call helpers the reference tree did not have: E1–E4 look at the bodies as written, and at the
@@ -687,4 +710,28 @@ func readsUnguarded(info *types.Info, n ast.Node, v, okv types.Object) bool {
 	}
 	walk(n)
 	return found
+}
+
+// propertyPackages: the packages each property is anchored in (anchors.files of properties.jsonl) and the modules its
+// mechanisms are assembled from. Used only to select the functions the inventory rules (E5, E5b, E6) look at.
+var propertyPackages = map[string][]string{
+	"C01": {"internal/target/queue", "internal/target/remote", "internal/target/smtp", "internal/smtpconn", "internal/dsn"},
+	"C02": {"internal/target/queue", "framework/buffer"},
+	"C03": {"internal/endpoint/smtp", "internal/msgpipeline", "internal/limits", "internal/limits/limiters"},
+	"C04": {"internal/msgpipeline", "internal/modify", "internal/table", "framework/address", "framework/dns"},
+	"C05": {"internal/target/remote", "internal/smtpconn", "internal/smtpconn/pool", "framework/dns", "framework/future"},
+	"C06": {"internal/msgpipeline", "internal/check", "framework/config/module", "internal/target/remote"},
+	"C07": {"internal/dmarc", "internal/msgpipeline"},
+	"C09": {"internal/msgpipeline", "internal/smtpconn", "internal/target/remote", "internal/target/smtp", "internal/target/queue"},
+	"C10": {"internal/target/queue", "framework/buffer", "framework/module"},
+	"C11": {"internal/limits", "internal/limits/limiters", "internal/endpoint/smtp", "internal/target/remote"},
+	"C12": {"internal/target/queue"},
+	"C13": {"internal/target/remote", "framework/dns", "framework/future"},
+	"C14": {"internal/auth", "internal/auth/pass_table", "internal/auth/sasllogin", "internal/authz", "internal/endpoint/smtp"},
+	"C15": {"internal/check/authorize_sender", "internal/authz", "internal/msgpipeline", "framework/address"},
+	"C16": {"framework/exterrors", "internal/endpoint/smtp", "internal/smtpconn", "internal/target/queue", "internal/target/remote", "framework/config/module"},
+	"C17": {"framework/address", "framework/dns"},
+	"C18": {"internal/dsn", "internal/target/queue"},
+	"C19": {"internal/smtpconn/pool", "internal/target/remote", "internal/smtpconn"},
+	"C20": {"framework/cfgparser", "framework/config/lexer"},
 }
